@@ -29,6 +29,14 @@ def gen_cases(tier, seed):
         for combo in itertools.product("\\nt\"a", repeat=L):
             body = "".join(combo)
             cases.append(asmgen.asm_case(0, [(1, '.stringz "' + body + '"\nhalt\n')])); tags.append("stringz-exhaustive")
+    # far label references: every PC-relative form with its target at the edge of its field's reach and beyond, forward and
+    # backward (the padding is .blkw): accepted ones must carry exactly target - (address + 1) in the field
+    for m, nb, feat in (("br", 9, 0), ("ld r1", 9, 0), ("lea r2", 9, 0), ("st r3", 9, 0), ("sti r4", 9, 0), ("ldi r5", 9, 0),
+                        ("jsr", 11, 0), ("call", 10, 1)):
+        lim = 1 << (nb - 1)
+        for d in (lim - 2, lim - 1, lim, lim + 1, 2 * lim - 1, 2 * lim, 3 * lim):
+            cases.append(asmgen.asm_case(feat, [(1, f"{m} far\n.blkw #{d}\nfar halt\n")])); tags.append("far-forward")
+            cases.append(asmgen.asm_case(feat, [(1, f"far halt\n.blkw #{d}\n{m} far\n")])); tags.append("far-backward")
     for i in range(n):
         stack = rnd.random() < 0.3
         items = asmgen.gen_program(rnd, stack=stack)
